@@ -125,9 +125,50 @@ func VerifH_params() {
 		v1 = vfAsciiString(1 + vfLen(3))
 		values["i"] = []string{v1}
 	}
+	boundary := -1
+	if kind >= 10 && kind != 11 && vfBool() {
+		// integer texts around the 32- and 64-bit limits instead of a short symbolic text
+		boundary = vfChoice(len(vfBoundaryInts))
+		v1 = vfBoundaryInts[boundary].s
+		key := "i"
+		if kind == 12 {
+			key = "l"
+		} else if kind == 13 {
+			key = "u"
+		}
+		values = url.Values{key: []string{v1}}
+	}
 	ps, err := m.parseQueryParams(values)
 	if err == nil {
 		err = ps.set(msg)
+	}
+	if boundary >= 0 {
+		b := vfBoundaryInts[boundary]
+		var fits bool
+		switch kind {
+		case 12:
+			fits = b.fits64
+		case 13:
+			fits = b.fits64 && b.v >= 0 && b.v <= 4294967295
+		default:
+			fits = b.fits64 && b.v >= -2147483648 && b.v <= 2147483647
+		}
+		if !fits {
+			vfCheck(err != nil, "an integer text outside the range of the field's type was accepted (coerced) instead of rejected")
+			vfCover("int-out-of-range-rejected")
+			return
+		}
+		vfCheck(err == nil, "an integer text within the range of the field's type was rejected")
+		switch kind {
+		case 12:
+			vfCheck(msg.vals["l"].Int() == b.v, "int64 query parameter not converted to its value")
+		case 13:
+			vfCheck(int64(msg.vals["u"].Uint()) == b.v, "uint32 query parameter not converted to its value")
+		default:
+			vfCheck(msg.vals["i"].Int() == b.v, "int32 query parameter not converted to its value")
+		}
+		vfCover("int-at-range-limit")
+		return
 	}
 	switch kind {
 	case 0:
@@ -234,33 +275,21 @@ func refTrimJSONSpace(s string) string {
 	return s
 }
 
-// refJSONInt: the JSON number grammar restricted to integers (optional '-', no leading zeros, no
-// '+', no fraction / exponent), for texts short enough to fit int32; surrounding JSON whitespace
-// is allowed.
-func refJSONInt(s string) (int, bool) {
-	for len(s) > 0 && (s[0] == ' ' || s[0] == '\t' || s[0] == '\n' || s[0] == '\r') {
-		s = s[1:]
-	}
-	for len(s) > 0 && (s[len(s)-1] == ' ' || s[len(s)-1] == '\t' || s[len(s)-1] == '\n' || s[len(s)-1] == '\r') {
-		s = s[:len(s)-1]
-	}
-	neg := false
-	if len(s) > 0 && s[0] == '-' {
-		neg = true
-		s = s[1:]
-	}
-	if len(s) == 0 || len(s) > 9 || (len(s) > 1 && s[0] == '0') {
-		return 0, false
-	}
-	v := 0
-	for i := 0; i < len(s); i++ {
-		if s[i] < '0' || s[i] > '9' {
-			return 0, false
-		}
-		v = v*10 + int(s[i]-'0')
-	}
-	if neg {
-		v = -v
-	}
-	return v, true
+// vfBoundaryInts: integer texts around the limits of the 32- and 64-bit types.
+var vfBoundaryInts = []struct {
+	s      string
+	v      int64
+	fits64 bool
+}{
+	{"2147483647", 2147483647, true},
+	{"2147483648", 2147483648, true},
+	{"-2147483648", -2147483648, true},
+	{"-2147483649", -2147483649, true},
+	{"4294967295", 4294967295, true},
+	{"4294967296", 4294967296, true},
+	{"4294967297", 4294967297, true},
+	{"9223372036854775807", 9223372036854775807, true},
+	{"9223372036854775808", 0, false},
+	{"-9223372036854775808", -9223372036854775808, true},
+	{"-9223372036854775809", 0, false},
 }
